@@ -301,7 +301,9 @@ namespace cnl {
                                 + overflow_digits<Rhs, polarity::positive>::value
                         > traits::positive_digits)
                     && ((lhs < Lhs{0}) ? (rhs > Rhs{0}) && (traits::lowest() / rhs) > lhs
-                                       : (rhs < Rhs{0}) && (traits::lowest() / rhs) < lhs);
+                                       // (lowest() / -1 overflows; a product with -1 is never too low)
+                                       : (rhs < Rhs{0}) && (rhs != static_cast<Rhs>(-1))
+                                                 && (traits::lowest() / rhs) < lhs);
             }
         };
 #if defined(__GNUC__)
